@@ -2,6 +2,7 @@ import Gv.Sexp
 import Gv.Driver.Comments
 import Gv.Driver.Settings
 import Gv.Driver.Signature
+import Gv.Driver.Layout
 
 open Gv Gv.Sexp Gv.Driver
 
@@ -15,6 +16,9 @@ def dispatch (req : Sexp) : Sexp :=
   | some "resolve" => handleResolve req
   | some "path" => handlePath req
   | some "sig" => handleSig req
+  | some "place" => handlePlace req
+  | some "cli" => handleCli req
+  | some "misc" => handleMisc req
   | _ => mkList "err" [.atom "unknown-request"]
 
 partial def loop (hin hout : IO.FS.Stream) : IO Unit := do
